@@ -5,7 +5,7 @@ the pristine tree; the patch applies and builds; the project's own suite still p
 files removed); the demonstration fails with the patch. Writes <out>/result-<Cxx>-<mk>.json.
 usage: verify_seed.py <root> <out> [Cxx ...]"""
 import json,os,shutil,subprocess,sys,glob
-ENV=dict(os.environ,GOFLAGS='-mod=mod',GOPROXY='off',GOSUMDB='off',GOTOOLCHAIN='local',GOWORK='off')
+ENV=dict(os.environ,GOFLAGS='-mod=mod -trimpath',GOPROXY='off',GOSUMDB='off',GOTOOLCHAIN='local',GOWORK='off')
 root,out=sys.argv[1],sys.argv[2]; only=sys.argv[3:]
 os.makedirs(out,exist_ok=True)
 def sh(cmd,cwd,timeout=900):
